@@ -39,8 +39,12 @@ def get_ctx(tier="quick", seed=0):
 
 def run_job(spec):
     """spec = (module_name, fn_name, kwargs, tier, seed) -> result dict"""
-    modname, fn, kwargs, tier, seed = spec
+    modname, fn, kwargs, tier, seed = spec[:5]
+    deadline = spec[5] if len(spec) > 5 else None
     t0 = time.time()
+    if deadline and t0 > deadline:
+        return [{"name": "%s.%s" % (modname, fn), "skipped": True,
+                 "job": "%s.%s(%s)" % (modname, fn, ", ".join("%s=%r" % kv for kv in sorted(kwargs.items())))}]
     try:
         ctx = get_ctx(tier, seed)
         mod = importlib.import_module("checks." + modname)
